@@ -7,7 +7,7 @@ import AbraModel.Drv.Sem
    RSTMT = ( let ( ids ID* ) R ) | ( assignv ID R ) | ( assignp ( ids ID* ) R R ) | ( expr R ) | ( while R RSTMT* )
          | ( for ( ids ID* ) R RSTMT* ) | ( break ) | ( continue ) | ( ret R )
    Answer: for every lambda/task of every body `captures:locals`, sorted; then ` loops=ok|bad`
-   (checker loop context accepts and, if so, the code generator's agrees) and ` table=ok|missing` (every lookup of every
+   (checker loop context and captured-assignment rule accept and the code generator's loop context agrees) and ` table=ok|missing` (every lookup of every
    function body — main, lambdas, tasks — has an entry in that function's offset table). -/
 namespace Abra.Drv.BG9
 open Abra.Analysis
@@ -97,7 +97,7 @@ def handleAnalysis (toks : List String) : String :=
     | some bodies =>
       let pairs := bodies.foldl (fun acc (_, e) => acc ++ closuresE e) []
       let sorted := pairs.foldl (fun acc p => insertPairSorted p acc) []
-      let loopsOk := bodies.all fun (_, e) => checkerLoopsE false e && codegenLoopsE 0 e
+      let loopsOk := bodies.all fun (_, e) => checkerLoopsE false e && codegenLoopsE 0 e && checkerAssignE none e
       let fns := bodies ++ bodies.foldl (fun acc (_, e) => acc ++ nestedFns e) []
       let tableOk := fns.all fun (ps, e) => (lookupsE e).all fun k => (tableKeys ps e).contains k
       " ".intercalate (sorted.map fun (c, l) => s!"{c}:{l}") ++ (if loopsOk then " loops=ok" else " loops=bad")
